@@ -587,7 +587,60 @@ func runC14(r *Run) {
 				"the directive is searched in the header as sent: `Cache-Control: No-Store` (or NO-CACHE) is not recognised, the response is stored and served from the cache")
 		}
 		folds := len(callsMatching(f, false, nameIs("strings.EqualFold")))
-		r.atLeast("directive searches", n+folds, 1)
+		// … or compared member by member (`for _, m := range strings.Split(v, ",") { if name == directive …`): then the
+		// member is also freed of the blanks around it — the list is `a, b`, and the blank belongs to no name
+		isDirective := func(v ssa.Value) bool {
+			p, ok := v.(*ssa.Parameter)
+			return ok && p.Parent() == f && p.Name() == "directive"
+		}
+		isSplit := func(v ssa.Value) bool {
+			c, ok := v.(*ssa.Call)
+			if !ok {
+				return false
+			}
+			switch calleeName(&c.Call) {
+			case "strings.Split", "strings.SplitN", "strings.SplitSeq", "strings.FieldsFunc", "strings.Cut", "strings.IndexByte", "strings.Index", "bytes.Split", "bytes.Cut", "bytes.IndexByte":
+				return len(c.Call.Args) >= 2 && (literalIs(c.Call.Args[1], ",") || isConstInt(c.Call.Args[1], ','))
+			}
+			return false
+		}
+		eqs := 0
+		for _, in := range instrsWhere(f, func(in ssa.Instruction) bool {
+			bo, ok := in.(*ssa.BinOp)
+			return ok && (bo.Op == token.EQL || bo.Op == token.NEQ) && (dependsOn(bo.X, isDirective) != nil) != (dependsOn(bo.Y, isDirective) != nil) && isByteSeq(bo.X.Type())
+		}) {
+			bo := in.(*ssa.BinOp)
+			member := bo.X
+			if dependsOn(bo.X, isDirective) != nil {
+				member = bo.Y
+			}
+			if dependsOn(member, isSplit) == nil {
+				continue
+			}
+			eqs++
+			folded := dependsOn(member, func(v ssa.Value) bool {
+				cc, ok := v.(*ssa.Call)
+				if !ok {
+					return false
+				}
+				nm := calleeName(&cc.Call)
+				return nm == "strings.ToLower" || strings.HasPrefix(nm, "github.com/gofiber/utils/v2.ToLower") || nm == "bytes.ToLower"
+			}) != nil
+			r.check(folded, fmt.Sprintf("hasRequestDirective:member-compare#%d:case-folded", eqs), r.pos(in), "the list member is lower-cased before it is compared with the directive",
+				"the directive is compared with the list member as sent: `Cache-Control: No-Store` is not recognised, the response is stored and served from the cache")
+			trimmed := dependsOn(member, func(v ssa.Value) bool {
+				cc, ok := v.(*ssa.Call)
+				if !ok || len(cc.Call.Args) == 0 {
+					return false
+				}
+				nm := calleeName(&cc.Call)
+				isTrim := nm == "strings.TrimSpace" || nm == "strings.Trim" || nm == "strings.TrimLeft" || nm == "bytes.TrimSpace" || strings.HasPrefix(nm, "github.com/gofiber/utils/v2.Trim")
+				return isTrim && dependsOn(cc.Call.Args[0], isSplit) != nil
+			}) != nil
+			r.check(trimmed, fmt.Sprintf("hasRequestDirective:member-compare#%d:member-trimmed", eqs), r.pos(in), "each member of the comma-separated list is trimmed before it is compared",
+				"the members of the Cache-Control list are compared with the blank that follows the comma: `max-age=0, no-cache` and `private, no-store` are not recognised — a no-cache request is answered from the cache, a no-store response is stored")
+		}
+		r.atLeast("directive searches", n+folds+eqs, 1)
 		// … on every Cache-Control field line of the request (several lines are one list): the text comes from an
 		// accessor that hands out all values, not from Get/Peek, which answer the first line only
 		single, all := 0, 0
@@ -601,6 +654,32 @@ func runC14(r *Run) {
 		}
 		r.check(all > 0 && single == 0, "hasRequestDirective:every-field-line", r.fpos(f), "the directive is searched in every Cache-Control line of the request",
 			"only the first Cache-Control line of the request is looked at: `Cache-Control: max-age=0` followed by a second line `Cache-Control: no-cache` (or no-store) is served from the cache / stored")
+	})
+
+	r.rule("R13", "an entry is complete when it is handed to the store: after manager.set(key, e, …) no field of an item is written any more in the handler — with an external Storage the entry is serialised by set, a heap index (or anything else) assigned afterwards never reaches the stored record (E10 ordering)", func() {
+		_, h := cacheHandler(r)
+		isItemWrite := func(in ssa.Instruction) bool {
+			st, ok := in.(*ssa.Store)
+			if !ok {
+				return false
+			}
+			fa, ok := st.Addr.(*ssa.FieldAddr)
+			if !ok {
+				return false
+			}
+			fv := fieldVar(fa.X.Type(), fa.Field)
+			return fv != nil && fieldOwner(fv) == "cache.item"
+		}
+		n := 0
+		for _, c := range callsMatching(h, false, nameHasSuffix("cache.manager).set")) {
+			n++
+			// (giving the entry back to the pool wipes it: that is the end of the entry, not a late write)
+			isRelease := func(in ssa.Instruction) bool { return isCallTo(in, nameHasSuffix("cache.manager).release")) }
+			path, hit := reach(pointAfter(c.Instr), isItemWrite, nil, isRelease)
+			r.check(hit == nil, fmt.Sprintf("handler:set#%d:entry-complete-when-stored", n), r.pos(c.Instr), "no write of an item field is reachable after the entry was handed to the store",
+				"a field of the entry is written after manager.set: with an external Storage the stored record was serialised before — it keeps the old value (heap index 0 for every entry: a later removal by index takes another entry's slot and size; the byte accounting drifts and heap.Remove can index out of range): "+pathString(r.P, path))
+		}
+		r.atLeast("manager.set calls in the handler", n, 2)
 	})
 
 	r.rule("R12", "what the cache keeps of a response is copied out of it: the bytes stored in an item — body, content type, encoding, and both the names and the values of the stored headers — are copies, not views of the response's (or a header visitor's) buffers, which the next response written through the same context overwrites (E3)", func() {
